@@ -201,7 +201,7 @@ func operand(e Node) string {
 		if intOf(e["n"]) >= 0 {
 			return Expr(e)
 		}
-	case "str", "var", "idx", "call", "bi", "group", "re0", "fnum":
+	case "str", "var", "idx", "call", "bi", "group", "fnum":
 		return Expr(e)
 	case "field":
 		ix := e["e"].(Node)
